@@ -14,7 +14,8 @@ Deadline model, evaluated at every service call (tyme t, tock dt): D = tyme of t
 call that last saw traffic on the connection (accept, bytes received or sent) + tymeout.
   not early   a connection closed by the call at tyme t requires t >= D           [closed-early]
   not late    a non-persistent connection that is still open after the call at tyme
-              t >= D + dt, with no new bytes offered to that call, is a violation  [not-closed]
+              t >= D, with no new bytes offered to that call, is a violation  [not-closed]
+              (tymes are dyadic, so "idle for exactly the tymeout" is an exact comparison)
   persistent  a connection whose request was persistent is never closed for idleness [persistent-closed]
 """
 from hypothesis import strategies as st
@@ -130,7 +131,7 @@ def run_case(case):
                     r.fail("C12/closed-early", "connection %d (%s) closed at tyme %r, last traffic + tymeout = %r" % (
                         i, p["kind"], t, D))
                 continue
-            if D is not None and not p["persist"] and not fresh.get(i) and not got_bytes and t >= D + tock:
+            if D is not None and not p["persist"] and not fresh.get(i) and not got_bytes and t >= D:
                 sig = "C12/not-closed(after earlier traffic)" if p["sent"] >= 1 else "C12/not-closed(never sent anything)"
                 r.fail(sig, "connection %d (%s) still open after the service call at tyme %r: last traffic at %r + tymeout %r = %r" % (
                     i, p["kind"], t, D - Teff, Teff, D))
